@@ -129,6 +129,7 @@ var badFilters = []string{`attributes`, `attributes:x AND`, `attributes:x AND at
 
 var payloads = []string{
 	`{}`, `{"a":1}`, `{"a": 1 , "b" : [1, 2,3] }`, `"str"`, `123`, `1e400`, `12345678901234567890123`, `null`, `true`,
+	`{"html":"<a href=\"x\">&</a>","n":12345678901234567890,"f":0.1000000000000000055511151231257827}`, `["<",1e400,9007199254740993,">"]`,
 	`{"html":"<b>&amp;</b>"}`, "{\"u\":\" 日本\\u00e9\"}", `[{"deep":[[[{"x":null}]]]}]`, ` [ ] `, `{"b":2,"a":1}`, `0.10`,
 }
 var badPayloads = []string{`{`, `not json`, `{"a":}`, `{} {}`, `'x'`}
@@ -484,6 +485,10 @@ func (g *Gen) Next(d *Dump, vnow int64) Action {
 	case "Pull":
 		if g.profile == "c15" {
 			return Action{Op: &Op{Kind: k, Name: g.liveSub(d), Max: 1000}}
+		}
+		if g.profile == "delivery" && g.chance(0.06) {
+			// a waiting pull the client abandons (only left waiting when nothing is deliverable)
+			return Action{Op: &Op{Kind: k, Name: g.liveSub(d), Max: 10, Wait: true}}
 		}
 		return Action{Op: &Op{Kind: k, Name: g.liveSub(d), Max: int32([]int{1, 1, 2, 3, 10, 100}[g.r.Intn(6)])}}
 	case "SeekTime":
